@@ -76,7 +76,7 @@ def num(x):
 
 
 class Interp:
-    def __init__(self, prog):
+    def __init__(self, prog, shared=None):
         self.prog = prog
         self.probe = None
         self.log = []
@@ -96,13 +96,20 @@ class Interp:
         o = prog.get('objs', {})
         self.flags = [Flag() for _ in range(o.get('flags', 0))]
         self.tracked = [Tracked(v) for v in o.get('tracked', [])]
-        self.locks = [Lock() for _ in range(o.get('locks', 0))]
-        self.queues = [Queue() for _ in range(o.get('queues', 0))]
-        self.channels = [Channel() for _ in range(o.get('channels', 0))]
+        if shared is None or not o.get('shared'):
+            shared = {}          # (with prog['objs']['shared'] the objects outlive this simulation: a model's "static" objects)
+
+        def once(key, make):
+            if key not in shared:
+                shared[key] = make()
+            return shared[key]
+        self.locks = [once(('lock', i), Lock) for i in range(o.get('locks', 0))]
+        self.queues = [once(('queue', i), Queue) for i in range(o.get('queues', 0))]
+        self.channels = [once(('channel', i), Channel) for i in range(o.get('channels', 0))]
         self.resources = {}
         for spec in o.get('resources', []):
             cls = Capacities if spec['kind'] == 'cap' else Resources
-            self.resources[spec['name']] = cls(**spec['levels'])
+            self.resources[spec['name']] = once(('res', spec['name']), lambda cls=cls, spec=spec: cls(**spec['levels']))
         # condition objects that are built once and used by several steps (['named', i])
         self.named = [self.cond(e) for e in o.get('conds', [])]
         self.pipes = []
@@ -779,7 +786,7 @@ def execute(prog, probe=None, wall=60, faults=(), sample=False, observe=None, ho
     from .probe import run_probed, Probe
     sys.unraisablehook = _unraisable      # GC-time noise of abandoned coroutines: counted only
     warnings.simplefilter('ignore')
-    it = Interp(prog)
+    it = Interp(prog, shared=(hooks or {}).get('shared_objs'))
     if hooks:
         it.hooks = hooks
     roots = it.roots()
